@@ -6,7 +6,8 @@ import re
 class Check(ParCheck):
     prop = 'C10'
     theorems = ['patCount_applyAction', 'C10_positions_exact', 'nextOrdered_applyAction', 'C10_slots_exact',
-                'C10_final_counts_schedule_independent', 'reasons_applyAction', 'C10_racing_reasons_all_kept']
+                'C10_final_counts_schedule_independent', 'reasons_applyAction', 'C10_racing_reasons_all_kept',
+                'C10_solo_thread_is_sequential', 'C10_assembled_mocks_have_distinct_ids', 'C10_atomic_call_is_call']
 
     def rule(self):
         return ("scenarios: 2-3 threads x 1-3 calls on shared unordered patterns with response chains, on ordered sequences and "
